@@ -70,6 +70,8 @@ class Engine:
         self.frame_hook = None
         self.verifying = set()
         self.opaque_truth, self.opaque_pytype = {}, {}
+        self.external_values = {"os.sep": "/"}
+        self.instantiate_hook = None
 
     def exc_class_chain(self, cls):
         """names of all classes in the exception hierarchy above cls (ClassInfo or builtin name)"""
@@ -301,6 +303,10 @@ class Interp:
         q = cinfo.qualname
         if q in self.E.summaries:
             return self.E.summaries[q](self, None, args, kwargs)
+        if self.E.instantiate_hook is not None:
+            r = self.E.instantiate_hook(self, cinfo, args, kwargs)
+            if r is not UNBOUND:
+                return r
         chain = self.E.exc_class_chain(cinfo)
         if "BaseException" in chain:
             o = SObj(cinfo, {"args": tuple(args), **{k: v for k, v in kwargs.items()}}, lazy=True)
